@@ -287,11 +287,36 @@ def run(repo, chk):
     lx = repo.find_class(LEXER, 'Lexeme')
     got = [n.target.id for n in lx.body if isinstance(n, ast.AnnAssign)]
     chk.expect(got == ['token', 'span'], 'C12.R6', 'Lexeme fields', f'{got}', LEXER)
-    ys = [src(n.value) for m in repo.methods(ASM, 'Metadata').values() for n in ast.walk(m) if isinstance(n, ast.Yield)]
-    chk.expect(ys == ["b'; ' + line.encode('utf-8')"], 'C12.R6', 'Metadata.lines', f'metadata must only produce comment lines: {ys}', ASM)
-    lines_fn = repo.find_func(ASM, 'lines')
-    t = src(lines_fn)
-    chk.expect("f'; Starting {span.start}'.encode('utf-8')" in t, 'C12.R6', 'asm.lines span comment', 'span info only in comments', ASM)
+    # positions and free text reach the output only inside comment lines: asm.lines / Metadata.lines interpreted on
+    # directive streams that differ only in a span, resp. only in metadata text (the functions are pure formatters)
+    it2 = Interp(repo)
+    it2.allow_generators = True
+    asm_ns = it2.load(ASM)
+    lex_ns = it2.load(LEXER)
+    Cur, Spn = lex_ns['Cursor'], lex_ns['Span']
+
+    def render(span, text):
+        ds = [asm_ns['Label'](asm_ns['LabelRef']('f')), asm_ns['Metadata'](add_indent=1), asm_ns['Metadata'](text, span=span),
+              asm_ns['Halt'](), asm_ns['Metadata'](span=span), asm_ns['Metadata'](add_indent=-1), asm_ns['Halt']()]
+        return [bytes(b) for b in asm_ns['lines'](ds)]
+    try:
+        a = render(Spn(Cur(0, 0), Cur(0, 3)), 'note one\nsecond line')
+        b = render(Spn(Cur(41, 7), Cur(43, 1)), 'note one\nsecond line')
+        c = render(Spn(Cur(0, 0), Cur(0, 3)), 'halt\nj x')
+        problem = None
+
+        def code_lines(ls):
+            return [l for l in ls if not l.lstrip(b' ').startswith(b';')]
+        if not (code_lines(a) == code_lines(b) == code_lines(c) == [b'f:', b'    halt', b'halt']):
+            problem = f'non-comment lines depend on span or metadata text: {code_lines(a)} / {code_lines(b)} / {code_lines(c)}'
+        elif any(b'\n' in l or b'\r' in l for l in a + b + c):
+            problem = 'a rendered line contains a line break'
+        elif a == b:
+            problem = None      # the span need not be shown at all
+    except Exception as e:      # noqa: BLE001
+        problem = f'{type(e).__name__}: {e}'
+    chk.expect(problem is None, 'C12.R6', 'asm.lines / Metadata.lines: positions and comment text only in `;` lines',
+               problem or '', ASM)
     sc_cls = repo.methods(SCANNER, 'SourceCode')
     t = src(sc_cls['from_string'])
     chk.expect("string.split('\\n')" in t and 'splitlines' not in t, 'C12.R6', 'SourceCode.from_string',
